@@ -56,6 +56,12 @@ pub fn vpanic_forbidden<T>() -> (r: T)
     ensures false
 { unimplemented!() }
 pub fn vdrop<T>(t: T) { }      // `drop(e)` (rule D5)
+// rule G6: the value comes out of a lock guard that stays alive (as a temporary of an `if let`/`match` scrutinee, or as a local) across
+// a later await: whoever else needs that lock waits for as long as this future is kept un-polled. The shape itself is the defect.
+pub fn hx_guard_held_across_await<T>(t: T) -> (r: T)
+    requires false,                                                                            // @ob lock.guard-not-held-across-an-await C02,C17,C18
+    ensures r == t
+{ t }
 // Option / Result ::unwrap_or_default (rule C1u): the contained value if there is one; otherwise `Default::default()`, about which nothing is assumed
 pub trait HxUnwrapOrDefault: Sized { type V; spec fn hx_has(&self) -> bool; spec fn hx_val(&self) -> Self::V;
     fn hx_unwrap_or_default(self) -> (r: Self::V) ensures self.hx_has() ==> r == self.hx_val(); }
